@@ -15,6 +15,7 @@ type DrCase struct {
 	Raws      []Raw
 	Sizes     []int
 	Stop      int64 // -1: read until the reader fails
+	Retry     int   // keep reading after up to Retry failed reads (retry.go)
 }
 
 // readPlan reads from r with the given buffer sizes (cyclically) until an
@@ -57,7 +58,7 @@ func RunDr(c DrCase) *Sx {
 	llr := smtp.VerifNewLineLimitReader(sc, c.LineLimit)
 	br := bufio.NewReader(llr)
 	dr := smtp.VerifNewDataReader(br, c.Max)
-	got, err := readPlan(dr, c.Sizes, c.Stop)
+	got, err := readPlan(withRetry(dr, c.Retry), c.Sizes, c.Stop)
 	smtp.VerifUnlimit(dr)
 	_, derr := readPlan(dr, []int{4096}, -1)
 	rest, rerr := readPlan(br, []int{4096}, -1)
@@ -72,7 +73,7 @@ func RunDr(c DrCase) *Sx {
 	if c.Stop >= 0 {
 		stop = Num(c.Stop)
 	}
-	return L(A("dr"),
+	return retrySx(c.Retry, L(A("dr"),
 		L(A("linelimit"), Num(int64(c.LineLimit))),
 		L(A("max"), Num(c.Max)),
 		L(A("raws"), RawsSx(raws)),
@@ -83,7 +84,7 @@ func RunDr(c DrCase) *Sx {
 			L(A("err"), A(ErrKind(err))),
 			L(A("drain"), A(ErrKind(derr))),
 			L(A("rest"), X(rest)),
-			L(A("resterr"), A(ErrKind(rerr)))))
+			L(A("resterr"), A(ErrKind(rerr))))))
 }
 
 // Segment cuts s into raw chunks according to mode:
@@ -250,6 +251,7 @@ func GenDr(rng *rand.Rand, thorough bool, emit func(*Sx)) {
 			}
 		}
 	}
+	genDrRetry(rng, thorough, emit) // (e) read failures inside the message, a backend that reads on (retry.go)
 }
 
 // stuff dot-stuffs a body given as raw octets (lines delimited by CRLF).
